@@ -21,13 +21,13 @@ ALL_CHECKS = {
         "note": TB + " Which MessageError variant is returned is not compared. Overflow-checks on (overflow = panic) and off (overflow = wrong fields).",
     },
     "C04": {
-        "technique": "property-based testing: (message, limit) pairs constructed to land on limit-1/limit/limit+1 via a reference length function, oracle success <=> exact RFC wire length <= limit; ASan harness build + libFuzzer wire_encode for the memory-safety clause (thorough)",
-        "text": "Every case checks all three entry points against the exact reference wire length (including limits L-1, L, L+1 around the message's own length), the returned bytes against the reference image, the error variant on refusal, and that option values beyond 65804 bytes are refused. The raw-pointer clause is decided by running the same generator in an AddressSanitizer build and a libFuzzer target in the thorough tier; in the plain build a wrong byte is caught by comparison and a hard crash is reported as a violation.",
+        "technique": "property-based testing: (message, limit) pairs constructed to land on limit-1/limit/limit+1 via a reference length function, oracle success <=> exact RFC wire length <= limit; the same cases in an AddressSanitizer build of the harness (quick and thorough) + Miri and libFuzzer wire_encode (thorough) for the memory-safety clause",
+        "text": "Every case checks all three entry points against the exact reference wire length (including limits L-1, L, L+1 around the message's own length), the returned bytes against the reference image, the error variant on refusal, and that option values beyond 65804 bytes are refused. The raw-pointer clause is decided by running the same generator in an AddressSanitizer build (both tiers, also with the udp feature set's 64000-byte limit in the plain build) and under Miri and a libFuzzer target in the thorough tier; in the plain build a wrong byte is caught by comparison and a hard crash is reported as a violation.",
         "note": TB + " ASan sees out-of-allocation writes, not writes into spare capacity; uninitialised bytes are visible only as wrong values.",
     },
     "C05": {
         "technique": "exhaustive enumeration of every number space compared with independently transcribed IANA/RFC registry tables (differential, both directions)",
-        "text": "All 65536 option numbers, 65536 content-format ids (plus ids beyond u16), 256 code bytes, 256 first header bytes, 4 types and 65536 observe values are enumerated completely; name->number, number->name, both round trips, c.dd text form, set_code/get_code, is_error and encoded/decoded header bytes are compared with tables that pair each enum variant with its registry number.",
+        "text": "All 65536 option numbers, 65536 content-format ids (plus ids beyond u16), 256 code bytes, 256 first header bytes, 4 types and 65536 observe values are enumerated completely; name->number, number->name, both round trips, c.dd text form, set_code/get_code, is_error, the request/response API's second tables (get_method / get_status, directly and from the wire) and encoded/decoded header bytes are compared with tables that pair each enum variant with its registry number.",
         "note": "Trusted base: the registry transcription in harness/src/refmodel/registry.rs. UnKnown placeholders are only required to keep their byte.",
     },
     "C06": {
